@@ -14,6 +14,19 @@ def main():
     ap.add_argument("--seed", type=int, default=int(os.environ.get("VERIF_SEED", "0")))
     ap.add_argument("--replay", default=None)
     a = ap.parse_args()
+    # Python's set/dict order of str-keyed and enum-keyed containers depends on the hash seed: pin it to the run's
+    # seed so that a run (and a replay of one of its cases) is repeatable, and different seeds see different orders
+    want = str(a.seed % 4294967295)
+    if a.replay:
+        try:
+            import json
+
+            want = str(json.load(open(a.replay)).get("hashseed", want))
+        except Exception:
+            pass
+    if os.environ.get("PYTHONHASHSEED") != want:
+        os.environ["PYTHONHASHSEED"] = want
+        os.execv(sys.executable, [sys.executable] + sys.argv)
     tier = os.environ.get("VERIF_TIER", a.tier) if a.tier is None else a.tier
     from vlib import core
 
